@@ -110,7 +110,7 @@ _Znwm(uint64_t n)
     VASSUME(p != 0);
     return p;
 }
-#ifndef VERIF_REPLAY /* (the native replay build uses libc memset/memmove) */
+#if !defined(VERIF_REPLAY) && MODE == 4 /* only the (unclaimed) enumeration harness; the native replay build uses libc */
 /* zero-initialisation of the manager's two vectors (a 48-byte memset in the unit): typed, so that
  * the vectors' pointers stay pointers (CBMC's memset writes a byte array over the struct) */
 void*
